@@ -215,8 +215,7 @@ theorem ruleTest_same (hflag : filterUnpacksValuesOnly = true) (r s : RuleM) (do
         | error e => rfl
         | ok d =>
           have hdv : d = pairD pairs := by
-            unfold DataV.ofPy at hd
-            simp only at hd
+            rw [DataV.ofPy_list] at hd
             split at hd
             · cases hd
             · cases hd; simp [pairD]
